@@ -170,3 +170,37 @@ func Verif_C13_restart_only_forward() {
 	verifapi.Quiesce()
 	verifapi.Assert("no-lock-left-held", verifapi.HeldLocks() == 0)
 }
+
+// Verif_C13_unit_id_spellings: a finished unit is addressed through unusual spellings of its ID
+// (trailing slash, ./id, id/., ../node/id, id//): each command either fails as "unknown unit" or acts
+// on the one real unit; no second unit object appears for the same directory, and after a release that
+// reports success the unit is not known under ANY name and its directory is gone.
+func Verif_C13_unit_id_spellings() {
+	dir := verifapi.TempDir()
+	wk := verifWorkceptor(dir)
+	verifapi.Assert("register", wk.w.RegisterWorker("cmd", verifCmdCfg().NewWorker, false) == nil)
+	verifapi.FixRandom("unit0023")
+	u, err := wk.w.AllocateUnit("cmd", map[string]string{})
+	verifapi.Assert("allocated", err == nil)
+	u.UpdateBasicStatus(WorkStateSucceeded, "done", 0)
+	id := u.ID()
+	alias := []string{id + "/", "./" + id, id + "/.", "../A/" + id, id + "//", id}[verifapi.Choose(6)]
+	_, serr := wk.w.UnitStatus(alias)
+	verifapi.Assert("one-unit-object-per-directory", len(wk.w.activeUnits) == 1)
+	if alias != id {
+		verifapi.Assert("unusual-spelling-is-not-a-second-unit", serr != nil)
+	}
+	rerr := wk.w.ReleaseUnit(alias, false)
+	verifapi.Quiesce()
+	verifapi.Cover("release-attempted")
+	_, statErr := os.Stat(dir + "/A/" + id)
+	if rerr == nil {
+		verifapi.Assert("successful-release-removes-files", statErr != nil)
+		verifapi.Assert("successful-release-leaves-no-known-unit", len(wk.w.activeUnits) == 0)
+		_, again := wk.w.UnitStatus(id)
+		verifapi.Assert("released-unit-no-longer-known", again != nil)
+	} else {
+		verifapi.Assert("refused-release-leaves-unit-intact", verifapi.All(statErr == nil, len(wk.w.activeUnits) == 1))
+	}
+	verifapi.Assert("no-lock-left-held", verifapi.HeldLocks() == 0)
+}
